@@ -642,10 +642,21 @@ func hexTrunc(b []byte) string {
 	return fmt.Sprintf("%x", b)
 }
 
+var c14HostileTypes = []string{
+	"[]uint0", "[]uint", "[]int0", "[]struct", "[]struct0", "[][]uint8", "[]string", "[]string0", "[]bool0", "[]", "[", "]", "[]uint8", "[]uint1", "[]int64",
+	"[0]uint8", "[4]uint0", "[4]uint", "[2][0]uint8", "[2][]uint8", "[1][1][1][1][1][1][1][1]uint1", "[99999999999999999999]uint8", "[4294967296]uint1", "[-1]uint8", "[ 4]uint8", "[4] uint8",
+	"uint0", "int0", "uint", "int", "bool0", "bool2", "string0", "string7", "string", "struct0", "struct", "uint4294967296", "uint-1", "uint08", "uint8x", "float32", "", " ", "uint8\x00", "\xff\xfe",
+}
+
 func c14MutateMPCLC(cs *vrt.Case, r *vrt.Rng) {
 	sh := refc.RandShape(r, r.Range(1, 2), vrt.Pick(r, []int{1, 3, 8, 20}))
 	sh.Named = r.Bool()
 	c := refc.Gen(r, sh)
+	if r.Intn(3) == 0 {
+		// a signature of typed, named, compound arguments (arrays, strings,
+		// structs) instead of plain uints
+		c = c14Circuit(r)
+	}
 	var vb bytes.Buffer
 	c.Marshal(&vb)
 	valid := vb.Bytes()
@@ -736,6 +747,30 @@ func c14MutateMPCLC(cs *vrt.Case, r *vrt.Rng) {
 		d := append([]byte(nil), valid...)
 		binary.BigEndian.PutUint32(d[f.off:], uint32(r.Intn(c.NumWires+3)))
 		try("wire-field", d)
+	}
+	// type-text splicing: the type name of an argument (length field kept
+	// consistent) replaced by well-formed-looking and hostile type texts:
+	// zero-width and unsized elements, nested and empty arrays and slices,
+	// absurd sizes, unknown names
+	nType := 0
+	for _, f := range fields {
+		if f.kind != "typeLen" || nType >= 6 {
+			continue
+		}
+		nType++
+		l := int(binary.BigEndian.Uint32(valid[f.off:]))
+		if f.off+4+l > len(valid) {
+			continue
+		}
+		for _, txt := range c14HostileTypes {
+			var d []byte
+			d = append(d, valid[:f.off]...)
+			d = binary.BigEndian.AppendUint32(d, uint32(len(txt)))
+			d = append(d, txt...)
+			d = append(d, valid[f.off+4+l:]...)
+			try("type-text", d)
+		}
+		cs.Count("type_text_splices", int64(len(c14HostileTypes)))
 	}
 	if len(ops) >= 2 {
 		end := func(i int) int {
